@@ -281,7 +281,7 @@ def run(ctx):
     # a dispatch wakes ONE worker: waking all of them restarts the idle period of every worker that finds nothing to do
     for g2, bb2, t2 in facts.all_calls(lambda t2: call_is(t2, "std::sync::Condvar::notify_all")):
         if g2.file == P.file:
-            okn = td is not None and g2.id == td.id
+            okn = td is not None and shared.private_to(facts, P.drop.id, g2.id)
             ctx.ob("C20.4", "notify_all|%s" % g2.id, "only the pool's destructor wakes all workers; dispatching a connection wakes one", okn, g2.loc(bb2),
                    None if okn else "every dispatch wakes every idle worker, each of which then starts a fresh idle period: with one connection per idle period no surplus worker ever retires")
     PR.rule_counter_discipline(ctx, "C20.4")
